@@ -39,6 +39,18 @@ HUGE = 3_000_000  # a literal of 3 MB: frames between 2 and 4 MiB
 def input_for(kind: str, arity: int) -> list[list]:
     """A list of groups (graphs/datasets); flat entry points get the concatenation."""
     base = T3 if arity == 3 else T4
+    if kind == "many":
+        # more rows than any internal cap such as 65536 (one frame when non-delimited)
+        out = []
+        for i in range(70_000):
+            st = (I(f"http://a/s{i % 50}"), I("http://a/p"), L(str(i)))
+            out.append(st if arity == 3 else (*st, I("http://a/g")))
+        return [out]
+    if kind == "wrong_arity":
+        # triples handed to a quad/graph stream, quads to a triple stream: cannot be honoured
+        # as given (a TRIPLES stream may legitimately drop the graph names, see run_case)
+        other = T4 if arity == 3 else T3
+        return [list(other)]
     if kind == "huge":
         st = (I("http://a/x"), I("http://a/p"), L("z" * HUGE))
         return [[st if arity == 3 else (*st, I("http://a/g"))]]
@@ -54,7 +66,7 @@ def make_flow(name: str, lt: int, fs: int):
 
     cls = getattr(flows, name)
     if issubclass(cls, flows.BoundedFrameFlow):
-        return cls(logical_type=lt, frame_size=fs)
+        return cls(logical_type=lt, frame_size=fs if fs != 250 else 100_000)
     return cls(logical_type=lt)
 
 
@@ -123,6 +135,8 @@ def run_case(case: dict):
     arity = 3 if case["cls"] == "triple" else 4
     flat = [s for g in input_for(case["input"], arity) for s in g]
     expect = T.norm_seq(flat)
+    if case["input"] == "wrong_arity":
+        arity = len(flat[0])
     try:
         if case.get("reuse"):
             # the same options object was used before by a call that failed half-way
@@ -192,6 +206,13 @@ def all_points(frame_sizes) -> list:
                                     pts.append((api, entry, cls, lt, dl, fs, flow, "five", True))
                                 if flow == "inferred" and fs == 250 and lt in (0, 1, 2, 3, 4):
                                     pts.append((api, entry, cls, lt, dl, fs, flow, "huge", False))
+                                if flow == "inferred" and fs in (2, 250) and lt in (0, 1, 2):
+                                    pts.append((api, entry, cls, lt, dl, fs, flow, "wrong_arity",
+                                                False))
+                                if (fs == 250 and lt == 1 and api == "generic" and cls == "triple"
+                                        and flow in ("inferred", "BoundedFrameFlow")
+                                        and entry in ("stream_frames_gen", "flat_to_file")):
+                                    pts.append((api, entry, cls, lt, dl, fs, flow, "many", False))
     return pts
 
 
